@@ -53,8 +53,26 @@ DmpV(a) ==
                          ELSE "text-does-not-mean-the-graphs") \o " @ " \o T.variants[i].how>>
        ELSE Acc
 
-A == IF T.kind = "stream" THEN StrA ELSE DmpA
-V == IF T.kind = "stream" THEN StrV(ra) ELSE DmpV(ra)
+(* ---------------- kind = "bigstream" ---------------- *)
+\* A long stream given as its per-graph texts (COMMENT* Node each) joined by a separator that ends the line: its reading is the
+\* concatenation of the readings of the texts (MC_Stream!RoundTrip establishes that law on the bounded instance).
+\* T: texts, first: {ok, exc, graphs} (the string container in full), outs: per container {c, ok, exc, digests of the graphs}
+RECURSIVE ConcatGraphs(_, _)
+ConcatGraphs(ts, i) == IF i > Len(ts) THEN [ok |-> TRUE, gs |-> <<>>]
+                       ELSE LET o == Outcome(ts[i], "str")  r == ConcatGraphs(ts, i + 1) IN
+                            [ok |-> o.ok /\ Len(o.trees) = 1 /\ r.ok, gs |-> GraphsOf(o.trees, M) \o r.gs]
+BigA == ConcatGraphs(T.texts, 1)
+BigV(a) ==
+    IF ~a.ok THEN <<"NA", "a text of the stream is not one graph">>
+    ELSE IF ~T.first.ok THEN <<"REJECT", "load-failed " \o T.first.exc \o " @ " \o T.outs[1].c>>
+    ELSE IF ~SameSeq(a.gs, T.first.graphs) THEN <<"REJECT", "graphs-differ-from-the-reading-of-the-texts @ " \o T.outs[1].c>>
+    ELSE LET bad == {i \in DOMAIN T.outs : ~T.outs[i].ok \/ T.outs[i].digests # T.outs[1].digests} IN
+         IF bad # {} THEN LET i == CHOOSE x \in bad : \A y \in bad : x <= y IN
+              <<"REJECT", (IF ~T.outs[i].ok THEN "acceptance-differs-between-containers" ELSE "graphs-differ-between-containers") \o " @ " \o T.outs[i].c>>
+         ELSE Acc
+
+A == CASE T.kind = "stream" -> StrA [] T.kind = "bigstream" -> BigA [] OTHER -> DmpA
+V == CASE T.kind = "stream" -> StrV(ra) [] T.kind = "bigstream" -> BigV(ra) [] OTHER -> DmpV(ra)
 Init == tid \in 1..Len(Traces) /\ step = 0 /\ ra = 0 /\ verdict = <<"pending", "">>
 Compute1 == step = 0 /\ step' = 1 /\ ra' = A /\ UNCHANGED <<tid, verdict>>
 Judge == step = 1 /\ step' = 2 /\ verdict' = V /\ UNCHANGED <<tid, ra>>
